@@ -39,6 +39,10 @@ NSHARDS = {'quick': 4, 'thorough': 8}
 
 
 def _gen_shard(arg):
+    return dc.safe(_gen_shard0, arg)
+
+
+def _gen_shard0(arg):
     tier, shard, nshards = arg
     r = run_tlc('Gen_Datatypes', 'Gen_Datatypes_rt.cfg', workers=1, timeout=1100,
                 env={'DT_TIER': tier, 'DT_SHARD': shard, 'DT_NSHARDS': nshards,
@@ -64,6 +68,10 @@ def _gen_shard(arg):
 
 
 def _rand_records(arg):
+    return dc.safe(_rand_records0, arg)
+
+
+def _rand_records0(arg):
     seed, n = arg
     rnd = random.Random(seed)
     recs = []
